@@ -11,10 +11,10 @@ open C05 (bind_ok bind_ok_of)
 
 theorem chk_eq (s : HSt) (e : ILEffect) (bare : List String) (after : Bool) :
     chk s e bare after =
-      if (popPending s.pending (tmpsOfEffect e ++ bare)).1.isEmpty then (e, s)
-      else ((if after then .seqn ([e] ++ (popPending s.pending (tmpsOfEffect e ++ bare)).1.map Pend.render)
-             else .seqn ((popPending s.pending (tmpsOfEffect e ++ bare)).1.map Pend.render ++ [e])),
-            { s with pending := (popPending s.pending (tmpsOfEffect e ++ bare)).2 }) := rfl
+      if (popPending s.pending (bare ++ tmpsOfEffect e)).1.isEmpty then (e, s)
+      else ((if after then .seqn ([e] ++ (popPending s.pending (bare ++ tmpsOfEffect e)).1.map Pend.render)
+             else .seqn ((popPending s.pending (bare ++ tmpsOfEffect e)).1.map Pend.render ++ [e])),
+            { s with pending := (popPending s.pending (bare ++ tmpsOfEffect e)).2 }) := rfl
 
 theorem chk_snd (s : HSt) (e : ILEffect) (bare : List String) (after : Bool) :
     (chk s e bare after).2.hyb = s.hyb ∧ (chk s e bare after).2.imms = s.imms ∧
@@ -94,6 +94,8 @@ theorem freshRelE : HRelE (fun _ => True) True Fresh where
     · simp only [gccState]; rw [h1]
     · simp only [gccPend]; rw [h1]
   seq := fun s name exts cargs v => Fresh.of_push (p := seqPend s name exts cargs v) rfl rfl rfl
+    ((popPending_spec _ _).2.1.map _)
+  callx := fun s name exts cargs ret => Fresh.of_push (p := callxPend s name exts cargs ret) rfl rfl rfl
     ((popPending_spec _ _).2.1.map _)
 
 theorem freshRel : HRel (fun _ => True) True Fresh where
@@ -181,6 +183,8 @@ theorem shapeRelE : HRelE (fun _ => True) True ShapeRel where
     ⟨⟨_, rfl⟩, isHTmp_tmpName _⟩
   seq := fun s name exts cargs v => ShapeRel.of_push (p := seqPend s name exts cargs v) rfl (popPending_spec _ _).2.1
     ⟨⟨_, rfl⟩, isHTmp_tmpName _⟩
+  callx := fun s name exts cargs ret => ShapeRel.of_push (p := callxPend s name exts cargs ret) rfl (popPending_spec _ _).2.1
+    ⟨⟨_, rfl⟩, isHTmp_tmpName _⟩
 
 theorem shapeRel : HRel (fun _ => True) True ShapeRel where
   toHRelE := shapeRelE
@@ -213,6 +217,7 @@ theorem immRelE : HRelE (fun n => isHTmp n = false) True ImmRel where
     have : (gccState s v il).imms = s.imms := (chk_snd s (.setl v il) [] false).2.1
     rw [this] at hx; exact h x hx
   seq := fun s name exts cargs v h => h
+  callx := fun s name exts cargs ret h => h
 
 theorem immRel : HRel (fun n => isHTmp n = false) True ImmRel where
   toHRelE := immRelE
